@@ -25,7 +25,7 @@ Definition c_import (i : wimport) := c_str (wi_module i) ++ c_str (wi_name i) ++
 Definition c_ekind (k : ekind) : N := match k with EK_Func => 0 | EK_Table => 1 | EK_Mem => 2 | EK_Global => 3 end.
 Definition c_export (e : wexport) := c_str (we_name e) ++ [c_ekind (we_kind e); we_index e].
 Definition c_elem (e : welem) :=
-  (match wel_kind e with WEK_Passive => [0] | WEK_Declared => [1] | WEK_Active t o => 2 :: c_opt c_n (match t with Some 0 => None | _ => t end) ++ c_const o end   (* explicit table 0 = implicit table 0; which flag byte is used is wasm-encoder's choice, checked by the C20 oracle *)) ++
+  (match wel_kind e with WEK_Passive => [0] | WEK_Declared => [1] | WEK_Active t o => 2 :: c_opt c_n t ++ c_const o end) ++
   (match wel_items e with WEI_Funcs fs => 0 :: c_list c_n fs | WEI_Exprs t es => 1 :: refty_code t :: c_list c_const es end).
 Definition c_data (d : wdata) :=
   (match wd_kind d with WDK_Passive => [0] | WDK_Active m o => 1 :: m :: c_const o end) ++ c_list c_n (wd_bytes d).
@@ -60,6 +60,16 @@ Definition c_sec (s : wsec) : list N :=
   | S_Custom c => 0 :: c_custom c
   end.
 
+(* wasm-encoder's ElementSection::segment: an active segment with table = None is written in the MVP
+   form only when its items are function indices or funcref expressions; otherwise it is written in
+   the explicit-table form with index 0 (which the decoder reports as Some 0) *)
+Definition wire_elem (e : welem) : welem :=
+  match wel_kind e, wel_items e with
+  | WEK_Active None o, WEI_Exprs RT_Externref _ => {| wel_kind := WEK_Active (Some 0) o; wel_items := wel_items e |}
+  | _, _ => e
+  end.
+Definition wire_sec (s : wsec) : wsec := match s with S_Elems l => S_Elems (map wire_elem l) | _ => s end.
+
 (* index (1-based) of the first section that differs, 0 when equal *)
 Fixpoint first_sec_diff (n : N) (a b : list wsec) : N :=
   match a, b with
@@ -86,7 +96,7 @@ Definition roundtrip (cf : config) (ver : str) (w : wmod) (do_gc : bool) (dwarf 
 Record mcase := { mc_cf : config; mc_ver : str; mc_in : wmod; mc_gc : bool; mc_dwarf : list wsec; mc_obs : N; mc_out : list wsec }.
 Definition check_module (c : mcase) : N :=
   match roundtrip (mc_cf c) (mc_ver c) (mc_in c) (mc_gc c) (mc_dwarf c), mc_obs c with
-  | MOk secs, 0 => match first_sec_diff 0 secs (mc_out c) with 0 => 0 | k => 100 + k end
+  | MOk secs, 0 => match first_sec_diff 0 (map wire_sec secs) (mc_out c) with 0 => 0 | k => 100 + k end
   | MErr, 1 => 0
   | MPanic, 2 => 0
   | MOk _, _ => 1 | MErr, _ => 2 | MPanic, _ => 3
@@ -120,7 +130,7 @@ Definition check_edit (c : ecase) : N :=
                    end in
           match r, ec_obs c with
           | POk m, 0 => match emitM m ilen1 [] with
-                        | Ok e => match first_sec_diff 0 (em_secs e) (ec_out c) with 0 => 0 | k => 100 + k end
+                        | Ok e => match first_sec_diff 0 (map wire_sec (em_secs e)) (ec_out c) with 0 => 0 | k => 100 + k end
                         | _ => 3 end
           | PErr, 1 => 0
           | PPanic, 2 => 0
